@@ -19,6 +19,14 @@
  * /repo/src/dat_*.c (first entry .. last entry; day numbers counted from 1858-11-16 of
  * first-of-months, month index of the first entry in slot 0).
  *
+ *   mode=stream  the scales as the recurrence stream uses them: for every scale name the parser accepts
+ *             (HIJRI, HIJRI.UMMULQURA, HIJRI.DIYANET, HIJRI.IA .. HIJRI.IVC) and several DTSTARTs the events
+ *             RRULE:FREQ=DAILY;SCALE=x;COUNT=200, FREQ=MONTHLY;...;COUNT=150 and FREQ=YEARLY;...;COUNT=70
+ *             (text -> parser -> stream, reported in Gregorian): consecutive Hijri days must be consecutive
+ *             Gregorian days, monthly/yearly steps must keep the Hijri day of month (and month) and advance
+ *             by one month (year) -- more only over dates the scale does not have --, strictly increasing,
+ *             and the stream must not end before COUNT while the next date lies inside the calendar
+ *
  * case = (scale, year); evaluations are counted per date.
  * options: mode=, y0= y1= (g2h), h0= h1= (h2g), nocount=1 (do not count non-trivial cases)
  */
@@ -27,6 +35,7 @@
 #include "scale.h"
 #include "tzob.h"
 #include "ref/civil_c15.h"
+#include "ref/icalio.h"
 /* data only: the month-start tables, for their coverage */
 #include "dat_ummulqura.c"
 #include "dat_diyanet.c"
@@ -440,6 +449,183 @@ h2g_year(int s, int HY)
 	vd_count("h2g_dates_outside_coverage", nout);
 }
 
+/* ------------------------------------------------------------- stream */
+static const struct {
+	const char *name;
+	int s;
+} pname[] = {
+	{"HIJRI", SCALE_HIJRI_UMMULQURA}, {"HIJRI.UMMULQURA", SCALE_HIJRI_UMMULQURA}, {"HIJRI.DIYANET", SCALE_HIJRI_DIYANET},
+	{"HIJRI.IA", SCALE_HIJRI_IA}, {"HIJRI.IC", SCALE_HIJRI_IC}, {"HIJRI.IIA", SCALE_HIJRI_IIA}, {"HIJRI.IIC", SCALE_HIJRI_IIC},
+	{"HIJRI.IIIA", SCALE_HIJRI_IIIA}, {"HIJRI.IIIC", SCALE_HIJRI_IIIC}, {"HIJRI.IVA", SCALE_HIJRI_IVA}, {"HIJRI.IVC", SCALE_HIJRI_IVC},
+};
+static const struct {
+	const char *freq;
+	int count;
+} srule[] = {{"DAILY", 200}, {"MONTHLY", 150}, {"YEARLY", 70}};
+/* Gregorian DTSTARTs; the Hijri day of month they fall on differs from scale to scale */
+static const int sstart[][3] = {
+	{1940, 6, 15}, {1975, 11, 30}, {2000, 2, 9}, {2020, 1, 1}, {2024, 7, 7}, {2050, 8, 8}, {2070, 1, 20},
+	{2000, 4, 5}, {2000, 4, 6}, {2000, 4, 7},
+};
+
+static const char*
+fillclass(int k)
+{
+	/* the stream computes 63 occurrences per fill */
+	return k < 63 ? "first-fill" : k < 126 ? "second-fill" : "later-fill";
+}
+
+/* is the Hijri date Y-M-D one the scale has (inside the calendar, day within the month)? */
+static bool
+hexists_p(int s, const struct tab_s *t, long y, long m, unsigned d)
+{
+	return hcover(t, y, m) == 0 && d <= echs_scale_ndim((echs_scale_t)s, (unsigned)y, (unsigned)m);
+}
+
+static void
+stream_case(int pi, int ri, int di)
+{
+	const int s = pname[pi].s;
+	const struct tab_s t = table(s);
+	const int cnt = srule[ri].count;
+	const long z0 = cvl_days(sstart[di][0], sstart[di][1], sstart[di][2]);
+	char text[1024], lines[256], sig[160], b1[32], b2[32];
+	echs_task_t tk;
+	echs_instant_t h0, hprev;
+	long zprev = 0;
+	int k;
+
+	snprintf(lines, sizeof(lines), "DTSTART;VALUE=DATE:%04d%02d%02d\nRRULE:FREQ=%s;SCALE=%s;COUNT=%d\n",
+		 sstart[di][0], sstart[di][1], sstart[di][2], srule[ri].freq, pname[pi].name, cnt);
+	ical_wrap(text, sizeof(text), "c15@verif", lines);
+	if (gcover(&t, z0) != 0 || gcover(&t, z0 + 30) != 0) {
+		/* DTSTART outside the table (or in its last month): nothing to expect */
+		vd_count("stream_events_dtstart_outside_table", 1);
+		return;
+	}
+	h0 = echs_instant_rescale(mkinst(SCALE_GREGORIAN, sstart[di][0], sstart[di][1], sstart[di][2]), (echs_scale_t)s);
+	if (echs_nul_instant_p(h0)) {
+		return;	/* g2h reports that */
+	}
+	h0 = echs_instant_detach_scale(h0);
+	if (ri > 0 && h0.d >= 30) {
+		/* a day not every month has: whether such months are skipped (RFC 5545, what the Gregorian rules do)
+		 * or get their last day (what the Hijri rules do) is a matter of the rule expansion, not of the scale */
+		vd_count("stream_events_day30_not_judged", 1);
+		return;
+	}
+	tk = ical_task1(text);
+	if (tk == NULL || tk->strm == NULL) {
+		snprintf(sig, sizeof(sig), "stream/no-task/%s/%s", srule[ri].freq, tname[s]);
+		vd_viol(sig, "parser produced no task/stream");
+		return;
+	}
+	hprev = h0;
+	for (k = 0; k < cnt + 2; k++) {
+		const echs_event_t e = echs_evstrm_pop(tk->strm);
+		echs_instant_t h;
+		long z;
+
+		vd_sh->evals++;
+		if (echs_nul_instant_p(e.from)) {
+			break;
+		}
+		if (k >= cnt) {
+			snprintf(sig, sizeof(sig), "stream/beyond-count/%s/%s", srule[ri].freq, tname[s]);
+			vd_viol(sig, "occurrence #%d of a COUNT=%d rule", k + 1, cnt);
+			break;
+		}
+		if (echs_instant_scale(e.from) != SCALE_GREGORIAN || !echs_instant_all_day_p(e.from) ||
+		    e.from.m < 1 || e.from.m > 12 || e.from.d < 1 || (int)e.from.d > cvl_ndim(e.from.y, e.from.m)) {
+			snprintf(sig, sizeof(sig), "stream/not-a-gregorian-date/%s/%s/%s", srule[ri].freq, tname[s], fillclass(k));
+			vd_viol(sig, "occurrence #%d is %s (scale %d)", k + 1, inst_str(b1, sizeof(b1), e.from), (int)echs_instant_scale(e.from));
+			break;
+		}
+		z = cvl_days(e.from.y, e.from.m, e.from.d);
+		if (k == 0 && z != z0) {
+			snprintf(sig, sizeof(sig), "stream/first-is-not-dtstart/%s/%s", srule[ri].freq, tname[s]);
+			vd_viol(sig, "first occurrence is %s", inst_str(b1, sizeof(b1), e.from));
+			break;
+		} else if (k > 0 && z <= zprev) {
+			snprintf(sig, sizeof(sig), "stream/not-increasing/%s/%s/%s", srule[ri].freq, tname[s], fillclass(k));
+			vd_viol(sig, "occurrence #%d is %s, %ld days before occurrence #%d", k + 1, inst_str(b1, sizeof(b1), e.from), zprev - z, k);
+			break;
+		}
+		if (ri == 0) {
+			/* consecutive Hijri days are consecutive Gregorian days */
+			if (z != z0 + k) {
+				const struct cvl_ymd_s c = cvl_civil(z0 + k);
+				snprintf(sig, sizeof(sig), "stream/days-not-consecutive/%s/%s/%s", srule[ri].freq, tname[s], fillclass(k));
+				vd_viol(sig, "occurrence #%d is %s, DTSTART + %d days is %04d-%02d-%02d", k + 1, inst_str(b1, sizeof(b1), e.from), k, c.y, c.m, c.d);
+				break;
+			}
+		} else if (k > 0) {
+			/* same day of the month (and month), one month (year) on; further only over dates that do not exist */
+			long am, pm;
+			const long step = ri == 1 ? 1 : 12;
+			bool skipped_real = false;
+
+			h = echs_instant_rescale(mkinst(SCALE_GREGORIAN, e.from.y, e.from.m, e.from.d), (echs_scale_t)s);
+			if (echs_nul_instant_p(h)) {
+				/* outside the calendar: g2h judges that; an occurrence there is not ours to judge */
+				break;
+			}
+			h = echs_instant_detach_scale(h);
+			if (h.d != h0.d || (ri == 2 && h.m != h0.m)) {
+				snprintf(sig, sizeof(sig), "stream/other-day-of-month/%s/%s/%s", srule[ri].freq, tname[s], fillclass(k));
+				vd_viol(sig, "DTSTART is %s %u-%02u-%02u, occurrence #%d is %s = %u-%02u-%02u", sname[s], h0.y, h0.m, h0.d, k + 1,
+					inst_str(b1, sizeof(b1), e.from), h.y, h.m, h.d);
+				break;
+			}
+			am = (long)h.y * 12 + (h.m - 1), pm = (long)hprev.y * 12 + (hprev.m - 1);
+			for (long q = pm + step; q < am; q += step) {
+				skipped_real |= hexists_p(s, &t, q / 12, q % 12 + 1, h0.d);
+			}
+			if ((am - pm) % step || am <= pm || skipped_real) {
+				snprintf(sig, sizeof(sig), "stream/step/%s/%s/%s", srule[ri].freq, tname[s], fillclass(k));
+				vd_viol(sig, "occurrence #%d is %s %u-%02u-%02u, occurrence #%d is %u-%02u-%02u (%s)", k, sname[s], hprev.y, hprev.m, hprev.d,
+					k + 1, h.y, h.m, h.d, inst_str(b1, sizeof(b1), e.from));
+				break;
+			}
+			hprev = h;
+		}
+		zprev = z;
+	}
+	if (k < cnt) {
+		/* ended (or abandoned) early: fine only if the calendar ends */
+		const echs_event_t e = echs_evstrm_next(tk->strm);
+		if (echs_nul_instant_p(e.from)) {
+			bool inside;
+			if (ri == 0) {
+				inside = gcover(&t, z0 + k) == 0 && gcover(&t, z0 + k + 30) == 0;
+			} else {
+				/* the next date the scale has, looking a few steps ahead; the table must reach beyond it */
+				const long step = ri == 1 ? 1 : 12;
+				long q = (long)hprev.y * 12 + (hprev.m - 1) + step;
+				inside = false;
+				for (int a = 0; a < 6 && !inside; a++, q += step) {
+					inside = hexists_p(s, &t, q / 12, q % 12 + 1, h0.d) && hcover(&t, (q + 2) / 12, (q + 2) % 12 + 1) == 0;
+				}
+				if (t.mt == NULL) {
+					inside = true;
+				}
+			}
+			if (inside && k > 0) {
+				snprintf(sig, sizeof(sig), "stream/early-end/%s/%s/%s", srule[ri].freq, tname[s], fillclass(k));
+				vd_viol(sig, "the stream ends after %d of %d occurrences (last %s) although the next date lies inside the calendar", k, cnt,
+					hstr(b2, sizeof(b2), echs_instant_attach_scale(hprev, (echs_scale_t)s)));
+			} else if (!inside) {
+				vd_count("stream_events_ending_with_the_table", 1);
+			}
+		}
+	} else {
+		NONTRIVIAL();
+	}
+	vd_sample("stream %s: DTSTART %04d-%02d-%02d (%s %u-%02u-%02u) FREQ=%s;COUNT=%d: %d occurrences read", pname[pi].name,
+		  sstart[di][0], sstart[di][1], sstart[di][2], sname[s], h0.y, h0.m, h0.d, srule[ri].freq, cnt, k);
+	free_echs_task(tk);
+}
+
 static void
 enumerate(void)
 {
@@ -539,6 +725,18 @@ enumerate(void)
 			}
 			NONTRIVIAL();
 			vd_sample("interleave: 90 ordered scale pairs x every day of %d x 5 distances", Y);
+		}
+	} else if (!strcmp(mode, "stream")) {
+		for (size_t ri = 0; ri < sizeof(srule) / sizeof(*srule); ri++) {
+			for (size_t di = 0; di < sizeof(sstart) / sizeof(*sstart); di++) {
+				for (size_t pi = 0; pi < sizeof(pname) / sizeof(*pname); pi++) {
+					if (!vd_next()) continue;
+					vd_desc("stream: DTSTART;VALUE=DATE:%04d%02d%02d RRULE:FREQ=%s;SCALE=%s;COUNT=%d read back in Gregorian",
+						sstart[di][0], sstart[di][1], sstart[di][2], srule[ri].freq, pname[pi].name, srule[ri].count);
+					vd_shape("stream/%s/%s", srule[ri].freq, tname[pname[pi].s]);
+					stream_case((int)pi, (int)ri, (int)di);
+				}
+			}
 		}
 	} else if (!strcmp(mode, "edge")) {
 		/* by-catch: month lengths asked for outside the tables must not crash */
